@@ -12,6 +12,13 @@ Ltac xor_solve :=
   apply N.bits_inj; intro; repeat rewrite N.lxor_spec;
   repeat match goal with |- context [N.testbit 0 ?i] => rewrite (N.bits_0 i) end; btauto.
 
+Lemma fold_left_cons {A B} (f : A -> B -> A) b l a : fold_left f (b :: l) a = fold_left f l (f a b).
+Proof. reflexivity. Qed.
+Lemma fold_left_nil {A B} (f : A -> B -> A) a : fold_left f [] a = a.
+Proof. reflexivity. Qed.
+Lemma length_cons {A} (b : A) l : length (b :: l) = S (length l).
+Proof. reflexivity. Qed.
+
 Lemma lt_pow2_of_bits x n : (forall i, n <= i -> N.testbit x i = false) -> x < 2 ^ n.
 Proof.
   intros H. assert (x = x mod 2 ^ n) as E.
@@ -380,29 +387,37 @@ Lemma xpow_b2n b : xpow 32 (N.b2n b) = if b then poly32 else 0.
 Proof. destruct b; [apply xpow32_1 | apply xpow_0]. Qed.
 
 (* x^32 * (R * x^n + bits) + S * x^n, reduced, is what the augmented register computes *)
-Lemma horner_shift32 bits : forall R S,
-  N.lxor (xpow 32 (fold_left (pstep P) bits R)) (xpow (length bits) S) =
-  fold_left astep bits (N.lxor (xpow 32 R) S).
+Lemma astep_eq R Sx b :
+  astep (N.lxor (xpow 32 R) Sx) b = N.lxor (xpow 32 (pstep P R b)) (xtimes Sx).
 Proof.
-  induction bits as [|b l IH]; intros R S.
-  { cbn [fold_left length]. rewrite xpow_O. reflexivity. }
-  cbn [fold_left length]. rewrite (xpow_succ_r (length l)), IH. f_equal.
   unfold astep. rewrite pstep_lin, (xpow_linear 32), xpow_b2n, xtimes_linear.
   rewrite <- (xpow_S 32 R), <- (xpow_succ_r 32 R).
   xor_solve.
 Qed.
 
+Lemma horner_shift32 bits : forall R Sx,
+  N.lxor (xpow 32 (fold_left (pstep P) bits R)) (xpow (length bits) Sx) =
+  fold_left astep bits (N.lxor (xpow 32 R) Sx).
+Proof.
+  induction bits as [|b l IH]; intros R Sx.
+  { rewrite !fold_left_nil. change (length (@nil bool)) with 0%nat. rewrite xpow_O. reflexivity. }
+  rewrite !fold_left_cons, length_cons, (xpow_succ_r (length l)), IH. f_equal. symmetry. apply astep_eq.
+Qed.
+
 (* at most 32 coefficients fed after R: no reduction touches them *)
+Lemma poly_of_bits_snoc l b : poly_of_bits (l ++ [b]) = pshift_in (poly_of_bits l) b.
+Proof. unfold poly_of_bits. rewrite poly_of_bits_from_app. reflexivity. Qed.
+
 Lemma feed_short bits : forall R, (length bits <= 32)%nat ->
   fold_left (pstep P) bits R = N.lxor (xpow (length bits) R) (poly_of_bits bits).
 Proof.
   induction bits as [|b l IH] using rev_ind; intros R Hl.
-  - cbn [length fold_left]. rewrite xpow_O. change (poly_of_bits []) with 0. rewrite N.lxor_0_r. reflexivity.
-  - rewrite app_length in Hl. cbn [length] in Hl.
-    rewrite fold_left_app. cbn [fold_left]. rewrite IH by lia.
-    rewrite pstep_lin, xtimes_linear.
-    unfold poly_of_bits. rewrite poly_of_bits_from_app. cbn [poly_of_bits_from fold_left].
-    fold (poly_of_bits l). rewrite pshift_in_lxor, app_length. cbn [length].
+  - rewrite fold_left_nil. change (length (@nil bool)) with 0%nat. rewrite xpow_O.
+    change (poly_of_bits []) with 0. rewrite N.lxor_0_r. reflexivity.
+  - rewrite app_length in Hl. change (length [b]) with 1%nat in Hl.
+    rewrite fold_left_app, fold_left_cons, fold_left_nil. rewrite IH by lia.
+    rewrite pstep_lin, xtimes_linear, poly_of_bits_snoc, pshift_in_lxor, app_length.
+    change (length [b]) with 1%nat.
     replace (length l + 1)%nat with (S (length l)) by lia. rewrite xpow_S.
     rewrite (xtimes_small (poly_of_bits l)).
     + xor_solve.
@@ -490,9 +505,9 @@ Qed.
 
 (* THE LINK: the reflected register run over [bits] from reflect(x^32 R + S) holds
    reflect(x^32 * (R x^n + bits) + S x^n  mod P) *)
-Theorem crc_bits_algebra bits R S : R < 2 ^ 32 -> S < 2 ^ 32 ->
-  crc_bits (reflect 32 (N.lxor (xpow 32 R) S)) bits =
-  reflect 32 (N.lxor (xpow 32 (fold_left (pstep P) bits R)) (xpow (length bits) S)).
+Theorem crc_bits_algebra bits R Sx : R < 2 ^ 32 -> Sx < 2 ^ 32 ->
+  crc_bits (reflect 32 (N.lxor (xpow 32 R) Sx)) bits =
+  reflect 32 (N.lxor (xpow 32 (fold_left (pstep P) bits R)) (xpow (length bits) Sx)).
 Proof.
   intros HR HS. rewrite horner_shift32. symmetry. apply reflect32_fold_astep.
   apply lxor_lt_pow2; [apply xpow_lt, HR | exact HS].
